@@ -388,6 +388,7 @@ func c11Run(c *mon.Ctx) {
 			}
 			c11Tree(c, "constructors", root, root.Build(ic))
 			if root.Parseable() {
+				root.DecorateBBoxes(r)
 				txt := root.JSON()
 				var po *geojson.ParseOptions
 				if i%3 == 1 {
